@@ -362,7 +362,7 @@ def libOutOf (abs : PyVal → Value) : CalleeOut → LibOut
 /-- the machine's treatment of a finished library call IS the wrapper: value ↔ `.ok`, documented exception ↔ `.err`,
 and the debug line is appended under the same condition (`logFn` present is part of `Host.logFailure`) -/
 theorem libOut_of_wrapCall (cfg : Config W) (call : CallFn W) (abs : PyVal → Value) (habs : abs .none = .null)
-    (wc : WrapCfg) (hwc : wc.debug = cfg.debug) (name : String) (out : CalleeOut) (log : List String) (w : W) (st : State W) :
+    (wc : WrapCfg) (name : String) (out : CalleeOut) (log : List String) (w : W) (st : State W) :
     match (wrapCall wc name out log).1 with
     | .value v => ∃ st', runTree cfg call (.ret (libOutOf abs out) w) st = .ok (abs v) st'
         ∧ st'.globals = st.globals ∧ st'.count = st.count
@@ -370,6 +370,13 @@ theorem libOut_of_wrapCall (cfg : Config W) (call : CallFn W) (abs : PyVal → V
     | .raiseRuntime m => runTree cfg call (.ret (libOutOf abs out) w) st = .err (.host m) { st with world := w }
     | .raiseParser m => runTree cfg call (.ret (libOutOf abs out) w) st = .err (.host m) { st with world := w } := by
   cases out <;> simp [wrapCall, libOutOf, runTree, failureMsg, habs]
+
+/-- the host-level log grows by exactly one line precisely when the machine applies `Host.logFailure`
+(same `debug` flag, `logFn` present) -/
+theorem log_line_iff_machine_logFailure (cfg : Config W) (wc : WrapCfg) (hd : wc.debug = cfg.debug) (hl : wc.hasLogFn = true)
+    (name : String) (out : CalleeOut) (log : List String) :
+    ((wrapCall wc name out log).2).length = log.length + (if (failureMsg out).isSome && cfg.debug then 1 else 0) := by
+  rw [failure_log_length, hl, hd]; simp
 
 /-- **Execution continues after a swallowed failure.**  In the machine a failing library call (`.ret (.fail v)`)
 (1) yields the failure value as an ordinary `ok` result, (2) in the state the callee left (`globals`, statement counter
@@ -620,9 +627,18 @@ theorem refines_host_pow_partial (F : Libm) (h : Heap) (w : HostImpl.World) (a b
   have nb := numQ_isNumber hb
   have fa := asFloat_exact F ha hx
   have fb := asFloat_exact F hb hy
+  have h2 : pyPow F (.float (.fin x)) b = floatPowOut F (.fin x) (.fin (k : Rat)) := by
+    have e1 : asFloat F (.float (.fin x)) = .ok (.fin x) := rfl
+    unfold pyPow
+    split
+    · simp_all
+    · rw [e1, fb]
   have hpy : binopPy F h .pow a b = floatPowOut F (.fin x) (.fin (k : Rat)) := by
-    simp [binopPy, na, nb, pyPowF, pyFloatOf, fa, pyPow, asFloat, fb]
-  have hsafe : binopSafe F h .pow a b = binopWith caught F h .pow a b := rfl
+    unfold binopPy
+    simp only [na, nb, Bool.and_self, if_true]
+    unfold pyPowF pyFloatOf
+    rw [fa]
+    exact h2
   unfold binopSafe binopWith
   rw [hpy]
   have hnotneg : ¬ x < 0 := Rat.not_lt.mpr hx0
@@ -648,6 +664,7 @@ theorem refines_host_pow_partial (F : Libm) (h : Heap) (w : HostImpl.World) (a b
             ratPowNat_eq, ratPowNat_one]
         · simp [floatPowOut, fPow, PyFloat.isZero, hkq, hxz, hnotneg, powPosE, absRes, absVal, HostImpl.binop, hk',
             ratPowNat_eq, ratPowNat_one]
+          rw [Rat.div_def, Rat.mul_inv_cancel 1 (by decide)]
       · have hp := hpow hxz hx1 hk0
         by_cases hk' : 0 ≤ k
         · simp [floatPowOut, fPow, PyFloat.isZero, hkq, hxz, hnotneg, powPosE, hx1, hp, absRes, absVal, HostImpl.binop, hk',
@@ -655,6 +672,28 @@ theorem refines_host_pow_partial (F : Libm) (h : Heap) (w : HostImpl.World) (a b
         · have hnat : (-k).toNat = k.natAbs := by omega
           simp [floatPowOut, fPow, PyFloat.isZero, hkq, hxz, hnotneg, powPosE, hx1, hp, absRes, absVal, HostImpl.binop, hk',
             ratPowNat_eq, HostPy.ratPowInt, hnat]
+
+/-! non-vacuity of the side conditions: a `Libm` whose rounding is the identity makes every rational exact -/
+
+def exactLibm : Libm := { ieee with rnd := fun q => .fin q, powPos := fun a y => .fin (HostPy.ratPowInt a y.num) }
+
+/-- 1.5 + int 2 (a `numberParseInt` result) = 3.5 on both sides -/
+example : absRes (binopSafe exactLibm [] .add (.float (.fin (3/2))) (.int 2)) = some (HostImpl.binop .add (.num (3/2)) (.num (2 : Int)) {}) :=
+  (refines_host_arith exactLibm [] {} (.float (.fin (3/2))) (.int 2) (3/2) (2 : Int) rfl rfl rfl rfl).1 rfl
+
+/-- 7 / 0 is null on both sides (no exactness needed for the quotient) -/
+example : absRes (binopSafe exactLibm [] .div (.float (.fin 7)) (.float (.fin 0))) = some (HostImpl.binop .div (.num 7) (.num 0) {}) :=
+  (refines_host_arith exactLibm [] {} (.float (.fin 7)) (.float (.fin 0)) 7 0 rfl rfl rfl rfl).2.2.2 (fun h => absurd rfl h)
+
+/-- 'a' < 5 compares type names on both sides -/
+example : absRes (binopSafe exactLibm [] .lt (.str "a") (.int 5)) = some (HostImpl.binop .lt (.str "a") (.num (5 : Int)) {}) :=
+  refines_host_cmp exactLibm [] {} (.str "a") (.int 5) _ _ rfl rfl rfl rfl (by decide) .lt (by simp)
+
+/-- 2 ** -3 = 1/8 on both sides -/
+example : absRes (binopSafe exactLibm [] .pow (.float (.fin 2)) (.float (.fin ((-3 : Int) : Rat))))
+    = some (HostImpl.binop .pow (.num 2) (.num ((-3 : Int) : Rat)) {}) :=
+  refines_host_pow_partial exactLibm [] {} (.float (.fin 2)) (.float (.fin ((-3 : Int) : Rat))) 2 (-3) rfl rfl rfl rfl (by decide)
+    (fun _ _ _ => rfl)
 
 end refines
 
